@@ -5,7 +5,9 @@ package main
 // the reference that validates this renderer and the specification.
 
 import (
+	"encoding/json"
 	"fmt"
+	"hash/fnv"
 	"sort"
 	"strings"
 )
@@ -445,7 +447,13 @@ func callerSrc(s *scn, name, callee, ctx, pfx string) string {
 		if a.Same > 0 {
 			fmt.Fprintf(&b, "a%d := a%d\n", i+1, a.Same)
 		} else {
-			fmt.Fprintf(&b, "a%d := mk_%s(%d)\n", i+1, a.T.key(), a.V)
+			if lit := concreteLit(s, a.T, a.V); lit != "" {
+				// concrete syntax: the argument variable has the script's own concrete type, the
+				// conversion to the interface type of the parameter happens at the call
+				fmt.Fprintf(&b, "a%d := %s\n", i+1, lit)
+			} else {
+				fmt.Fprintf(&b, "a%d := mk_%s(%d)\n", i+1, a.T.key(), a.V)
+			}
 		}
 		arg := fmt.Sprintf("a%d", i+1)
 		if s.Vd == "spread" && i == len(avs)-1 {
@@ -506,6 +514,30 @@ func callerSrc(s *scn, name, callee, ctx, pfx string) string {
 	}
 	b.WriteString(")\n}\n\n")
 	return b.String()
+}
+
+// concreteLit: for one scenario in two (by the hash of the scenario), an argument of type Shape or error whose
+// value is the script's own implementation is spelled as the composite literal of the concrete type
+// instead of mk_Shape(i) / mk_error(i), which return the interface type. The meaning is the same.
+func concreteLit(s *scn, t Ty, v int) string {
+	if len(t) != 1 {
+		return ""
+	}
+	h := fnv.New32a()
+	js, _ := json.Marshal(s)
+	h.Write(js)
+	if h.Sum32()%2 == 0 {
+		return ""
+	}
+	switch {
+	case t.head() == "Shape" && v == 1:
+		return "sRect{W: 3}"
+	case t.head() == "Shape" && v == 2:
+		return "&sDisk{R: 5}"
+	case t.head() == "error" && v == 2:
+		return "sErr{Msg: \"e2\"}"
+	}
+	return ""
 }
 
 // scriptSrc is the whole script of a "call" scenario.
